@@ -106,7 +106,9 @@ TARGETS = {
     'C05': list(CP_.TARGETS),
     'C06': [T(B + 'incref'), T(B + 'decref'), T(B + 'ref'), T(B + 'find_or_add')] + GC,
     'C07': SWAPV + [T('dd.bdd._sort_to_order'), T('dd.bdd._shift'), T('dd.bdd.reorder_to_pairs'),
-            T('dd.bdd.reorder', 'dd.bdd.reorder!order', variant='order', args={'order': 'dict:name->int'})],
+            T('dd.bdd.reorder', 'dd.bdd.reorder!order', variant='order', args={'order': 'dict:name->int'}),
+            T('dd.bdd._reorder_var'), T('dd.bdd._apply_sifting'),
+            T('dd.bdd.reorder', 'dd.bdd.reorder!sifting', variant='sifting', args={'order': 'none'})],
     'C08': HANDLES + [T(ABD + 'var'), T(ABD + 'ite'), T(ABD + 'quantify'), T(ABD + 'forall'), T(ABD + 'exist'), T(ABD + 'succ'),
                       T(AF + 'low'), T(AF + 'high')] + aapply_targets(['not', '&', 'ite', 'forall']) + AOPS[:7]
            + [T(B + '_init_terminal'), T(B + 'add_var')]   # declarations keep every count
